@@ -227,3 +227,8 @@ pub fn clone_eq<T: Clone>(x: &T) -> (r: T)
 pub fn hm_clone<K: Clone + Eq + std::hash::Hash, V: Clone>(m: &HashMap<K, V>) -> (r: HashMap<K, V>)
     ensures r@ == m@
 { m.clone() }
+
+// <S: Into<String>>::into (Type::simple_type): nothing is claimed about the text
+#[verifier::external_body]
+pub fn into_string<S: Into<String>>(s: S) -> (r: String)
+{ s.into() }
